@@ -257,7 +257,7 @@ def c04_counts(n, seed, procs):
         f = pep.declare_function(cls, **kw)
         pts = []
         seq = []
-        for _ in range(rnd.randint(1, 5)):
+        for _ in range(rnd.randint(12, 40) if it % 6 == 5 else rnd.randint(1, 5)):      # one case in six is large: counts with two digits
             r = rnd.random()
             if r < .2:
                 x = Point(); f.add_point((x, Point(is_leaf=False, decomposition_dict=dict()), Expression())); pts.append(x); seq.append("stat")
@@ -297,7 +297,7 @@ def c04_orders(n, seed, procs):
         rnd = random.Random(seed * 6151 + it)
         cname, kw = rnd.choice(ORDER_CLASSES)
         kw = random_params(rnd, cname)
-        ns = rnd.randint(1, 4)
+        ns = rnd.randint(9, 14) if it % 6 == 5 else rnd.randint(1, 4)
         base = list(range(ns)) + (["S"] if rnd.random() < .7 else [])
         o1 = base[:]; rnd.shuffle(o1)
         o2 = base[:]; rnd.shuffle(o2)
